@@ -1134,7 +1134,11 @@ def is_blocking(node: ast.AST, parent_type: ast.AST = None) -> bool:
             iterator = literal_value(node.iter)
         except ValueError:
             return False
-        if not any(True for _ in iterator):
+        try:
+            if not any(True for _ in iterator):
+                return False
+        except TypeError:
+            # for x in 5: ... raises when it is executed
             return False
 
     if isinstance(node, (ast.For, ast.While)):
